@@ -40,8 +40,7 @@ void h_l2_alloc8(void)  { nni_id_map *m; uint64_t *idp; void *v; VP_HAVOC_GHOSTS
 /* keeps the contract-only symbols of l2.h in the symbol table (never called) */
 void h_l2_resize8(void) { nni_id_map *m; VP_HAVOC_GHOSTS(); id_reg_num = nondet_int(); id_resize(m); VP_CANARY(); }
 void h_l2_set_first(void) { nni_id_map *m; uint64_t id; void *v; VP_HAVOC_GHOSTS(); id_reg_num = nondet_int(); nni_id_set(m, id, v); VP_CANARY(); }
-void h_l2_grow8(void) { nni_id_map *m; VP_HAVOC_GHOSTS(); id_reg_num = nondet_int(); id_resize(m); VP_CANARY(); }
-void vp_l2_refs(void) { l2_grow8(NULL); l2_set_first(NULL, 0, NULL); l2_resize8(NULL); l2_find8(NULL, 0); l2_get8(NULL, 0); l2_set8(NULL, 0, NULL); l2_remove8(NULL, 0); l2_alloc8(NULL, NULL, NULL); }
+void vp_l2_refs(void) { l2_set_first(NULL, 0, NULL); l2_resize8(NULL); l2_find8(NULL, 0); l2_get8(NULL, 0); l2_set8(NULL, 0, NULL); l2_remove8(NULL, 0); l2_alloc8(NULL, NULL, NULL); }
 
 /* Lemma (no function under contract): for every capacity 2^k, k = 1..30, the
  * probe map NEXT(j) = (5j+1) & (cap-1) satisfies NEXT^(cap/2)(j) == j + cap/2
